@@ -265,6 +265,8 @@ def gen_job(seed, profile="general"):
     steps = []
     for j in range(nsteps):
         n = r.choice([1, 2, 3, 4, 5, 6])
+        if j == 0 and kpick(seed, "long-history", 10) == 0:
+            n = (11, 13, 17)[kpick(seed, "long-history-n", 3)]  # more substeps than fingers
         ramp = []
         t = top if j == 0 else top * r.choice([0.5, 1.0, -0.3, 1.2])
         base = 0.0 if j == 0 else steps[-1]["_end"]
@@ -407,6 +409,8 @@ def _scale_umat(um, S, done=None):
     for k in keys:
         if um["p"].get(k) is not None:
             um["p"][k] = _scale(um["p"][k], S)
+    if um.get("third"):
+        um["third"] = {k: _scale(v, S) for k, v in um["third"].items()}
     return True
 
 
